@@ -66,6 +66,15 @@ struct Proc {
     timer: Option<tokio::task::JoinHandle<()>>,
 }
 
+/// what a recovery starting at this point can rely on
+struct RestartSnap {
+    log_pos: u64,
+    flushed: u64,
+    stored: BTreeSet<String>,
+    /// rows of WAL entries newer than the flushed mark (what ensure_wal will replay)
+    recoverable: BTreeSet<String>,
+}
+
 struct World {
     core: Arc<SimCore>,
     local: Arc<LocalMetadataClient>,
@@ -75,6 +84,8 @@ struct World {
     small_segments: bool,
     cur_node: Arc<AtomicU32>,
     next_node: u32,
+    /// at every (re)start: (persisted flushed sequence, rows stored in registered + present chunks)
+    restarts_seen: Vec<RestartSnap>,
 }
 
 impl World {
@@ -161,6 +172,27 @@ async fn start(world: &mut World, out: &mut Outcome, faults: &[(u8, Decision)], 
     let node = world.next_node;
     world.next_node += 1;
     world.cur_node.store(node, Ordering::Relaxed);
+    // what a recovery starting now can rely on: the persisted flushed mark, the stored rows and the
+    // rows of the WAL entries it will replay (read through the public WAL API)
+    {
+        let flushed = cardinalsin::ingester::load_flushed_seq(&world.wal_dir).unwrap_or(0);
+        let md = world.metadata(92);
+        world.core.set_scheduled(false);
+        let chunks = md.list_chunks().await.unwrap_or_default();
+        world.core.set_scheduled(true);
+        let stored: BTreeSet<String> = stored_rows(&world.core, &chunks).unwrap_or_default().into_iter().collect();
+        let mut recoverable = BTreeSet::new();
+        if world.wal_dir.exists() {
+            if let Ok(wal) = cardinalsin::ingester::WriteAheadLog::open(world.config().wal).await {
+                for e in wal.read_entries_after(flushed).unwrap_or_default() {
+                    if let Ok(bs) = e.batches() {
+                        recoverable.extend(rows_of_all(&bs));
+                    }
+                }
+            }
+        }
+        world.restarts_seen.push(RestartSnap { log_pos: world.core.log_len() as u64, flushed, stored, recoverable });
+    }
     let store = world.core.node(node);
     let md = world.metadata(node);
     let mut ing = Ingester::new(world.config(), store, md, crate::props::c06::storage_config(), MetricSchema::default_metrics());
@@ -239,6 +271,7 @@ pub fn exec(case: &Case) -> Outcome {
             small_segments: case.small_segments,
             cur_node,
             next_node: 1,
+            restarts_seen: Vec::new(),
         };
         out.class(if world.backend_s3 { "backend:s3" } else { "backend:local" });
         core.set_scheduled(true);
@@ -468,7 +501,18 @@ pub fn exec(case: &Case) -> Outcome {
                 let rid0 = batches.iter().find(|(_, rows)| rows.contains(row)).map(|(r, _)| *r)?;
                 log.iter().find(|l| l.desc.op == OpKind::Pause && l.desc.path == "ingester:after_wal_append" && l.desc.detail == format!("{}", rid0)).map(|l| l.id)
             };
-            // uploads in log order with their payload rows; ids of all after_truncate pauses
+            // WAL sequence of a row = 1-based rank of its write's after_wal_append pause among all such
+            // pauses (every append reaches that pause; sequences continue across restarts)
+            let appends: Vec<&ReqLog> = log.iter().filter(|l| l.desc.op == OpKind::Pause && l.desc.path == "ingester:after_wal_append").collect();
+            let seq_of = |row: &String| -> Option<u64> {
+                let a = append_id(row)?;
+                appends.iter().position(|l| l.id == a).map(|p| p as u64 + 1)
+            };
+            // D2 class: at some (re)start the persisted flushed mark already covered the row's WAL
+            // sequence although the row was in no registered chunk (so recovery skipped it)
+            // ... or a flush truncated the WAL with such a mark (segments whose last sequence is below
+            // the mark are removed) before the mark was persisted: mark at an after_truncate pause =
+            // number of appends observed before it; the row was in no payload uploaded until then
             let attempts = core.attempts();
             let uploads: Vec<(u64, BTreeSet<String>)> = log
                 .iter()
@@ -478,12 +522,19 @@ pub fn exec(case: &Case) -> Outcome {
                     (u.id, rows)
                 })
                 .collect();
-            let truncs: Vec<u64> = log.iter().filter(|l| l.desc.op == OpKind::Pause && l.desc.path == "flush:after_truncate").map(|l| l.id).collect();
-            // some flush decided its mark after the row's WAL append although the row was in no
-            // payload uploaded until then
+            let truncs: Vec<(u64, u64)> = log.iter().filter(|l| l.desc.op == OpKind::Pause && l.desc.path == "flush:after_truncate").map(|l| (l.id, appends.iter().filter(|a| a.id < l.id).count() as u64)).collect();
             let covered_by_foreign_mark = |row: &String| -> bool {
-                match append_id(row) {
-                    Some(a) => truncs.iter().any(|t| a < *t && !uploads.iter().any(|(u, rows)| *u < *t && rows.contains(row))),
+                let sq = match seq_of(row) {
+                    Some(sq) => sq,
+                    None => return false,
+                };
+                // first restart at which the row was neither stored nor replayable: the loss happened before it
+                let lost_at = world.restarts_seen.iter().find(|r| r.log_pos > append_id(row).unwrap_or(0) && !r.stored.contains(row) && !r.recoverable.contains(row));
+                match lost_at {
+                    Some(r) => {
+                        // the persisted mark covers the row, or a flush before that restart truncated with such a mark
+                        r.flushed >= sq || truncs.iter().any(|(t, mark)| *t < r.log_pos && *mark > sq && !uploads.iter().any(|(u, rows)| *u < *t && rows.contains(row)))
+                    }
                     None => false,
                 }
             };
@@ -509,7 +560,7 @@ fn decision() -> impl Strategy<Value = Decision> {
 
 fn phase() -> impl Strategy<Value = Phase> {
     (
-        prop::collection::vec(prop::collection::vec(batch_spec(5), 1..4), 1..4),
+        prop::collection::vec(prop::collection::vec(batch_spec(5), 1..4), 0..4),
         prop::collection::vec(any::<u16>(), 0..60),
         prop::collection::vec((0u8..40, decision()), 0..3),
         prop_oneof![3 => Just(Ending::Kill), 2 => Just(Ending::Graceful), 2 => Just(Ending::Continue)],
